@@ -67,7 +67,8 @@ def case_tree(EoN, p):
     """SIR_pair_based_pure_IC against the exact master equation on a tree"""
     import numpy as np
     G = O.graph_from_desc(p['graph']); _weights(G, p)
-    nodes = list(G.nodes()); seed = nodes[p['seed']]
+    nodes = list(G.nodes())
+    seeds = [nodes[i] for i in (p['seed'] if isinstance(p['seed'], list) else [p['seed']])]
     tau, gamma = p['tau'], p['gamma']
     kw = {}
     if p.get('tw'): kw['transmission_weight'] = p['tw']['attr']
@@ -75,14 +76,14 @@ def case_tree(EoN, p):
     if p.get('nodelist'):
         kw['nodelist'] = [nodes[i] for i in p['nodelist']]
     rec = [nodes[i] for i in p.get('recovered', [])]
-    st, r = O.call(EoN.SIR_pair_based_pure_IC, G, tau, gamma, [seed], initial_recovereds=(rec or None),
+    st, r = O.call(EoN.SIR_pair_based_pure_IC, G, tau, gamma, list(seeds), initial_recovereds=(rec or None),
                    tmax=p['tmax'], tcount=p['tcount'], **kw)
     if st != 'ok':
         return 'CRASH ' + r
     times = r[0]
     tw = (lambda u, v: tau * G[u][v][p['tw']['attr']]) if p.get('tw') else (lambda u, v: tau)
     rw = (lambda u: gamma * G.nodes[u][p['rw']['attr']]) if p.get('rw') else (lambda u: gamma)
-    S, I, R, nst = O.master_sir(G, tw, rw, {seed}, set(rec), times)
+    S, I, R, nst = O.master_sir(G, tw, rw, set(seeds), set(rec), times)
     d = max(O.maxdiff(r[1], S), O.maxdiff(r[2], I), O.maxdiff(r[3], R))
     if d > TOL * G.order():
         k = int(np.argmax(np.abs(np.array(r[2]) - I)))
@@ -419,6 +420,19 @@ def oracle_cases(rng, tier):
                 'graph': desc, 'seed': s, 'tau': rng.choice([0.5, 1.0]), 'gamma': 1.0, 'tmax': 4.0, 'tcount': 9,
                 'tw': {'attr': 'contact', 'values': [rng.choice([0.5, 1.0, 1.5, 2.0]) for _ in range(m)]},
                 'rw': {'attr': 'frailty', 'values': [rng.choice([0.5, 1.0, 2.0]) for _ in range(n)]}}))
+        # multiple seed placements (the property quantifies over them), with and without non-uniform weights:
+        # every pair of seeds on trees <= 4 nodes (quick: <= 5 in thorough), a random pair / triple on larger ones
+        import itertools
+        if n >= 3:
+            pairs = list(itertools.combinations(range(n), 2))
+            chosen = pairs if n <= (5 if thorough else 4) else rng.sample(pairs, min(len(pairs), 3 if thorough else 1))
+            if n >= 5: chosen = chosen + [tuple(rng.sample(range(n), 3))]
+            for ss in chosen:
+                cases.append(('SIR_pair_based_pure_IC/tree-multi-seed', 'tree', {'graph': desc, 'seed': list(ss), 'tau': rng.choice([0.5, 1.0]), 'gamma': 1.0, 'tmax': 4.0, 'tcount': 9}))
+                cases.append(('SIR_pair_based_pure_IC/tree-multi-seed-weighted', 'tree', {
+                    'graph': desc, 'seed': list(ss), 'tau': rng.choice([0.5, 1.0]), 'gamma': 1.0, 'tmax': 4.0, 'tcount': 9,
+                    'tw': {'attr': 'contact', 'values': [rng.choice([0.5, 1.0, 2.0, 3.0]) for _ in range(m)]},
+                    'rw': {'attr': 'frailty', 'values': [rng.choice([0.5, 1.0, 2.0]) for _ in range(n)]}}))
         if n >= 3:
             s = rng.randrange(n)
             rec = rng.choice([i for i in range(n) if i != s])
